@@ -39,6 +39,9 @@ structure Env where
   hasSetter : String → Bool
   /-- check_with functions / methods by name: the custom error messages they file -/
   checker : String → Val → Option (List String)
+  /-- validation rules added by a subclass (`_validate_<rule>(constraint, field, value)`):
+      the custom error messages they file; `none` = the class has no such rule -/
+  customRule : String → Val → Val → Option (List String) := fun _ _ _ => none
   /-- `rules_set_registry.get` -/
   rulesSets : String → Option Val
   /-- `schema_registry.get` -/
